@@ -194,3 +194,13 @@ def is_noise(st: ast.AST) -> bool:
 def effective(body) -> list:
     """the statements of a block that can matter (noise removed)"""
     return [st for st in body if not is_noise(st)]
+
+
+def handed_callback(a: ast.AST, names=None) -> Optional[str]:
+    """`self._on_error` or `lambda: self._on_error(error)` handed to a helper -> "_on_error" (names: accepted attribute names)."""
+    if isinstance(a, ast.Lambda) and isinstance(a.body, ast.Call):
+        a = a.body.func
+    if isinstance(a, ast.Attribute) and isinstance(a.value, ast.Name) and a.value.id == "self" and (
+            a.attr in names if names is not None else a.attr.startswith("_on_")):
+        return a.attr
+    return None
